@@ -489,6 +489,8 @@ fn scenarios(tier: &str) -> Vec<Scen> {
     let caps3: &[usize] = if quick { &[1] } else { &[1, 2] };
     for &cap in caps3 {
         add("send2_vs_unsub_vs_sub_other", cap, vec![Sub(0, 0), CloneRx(0, 1), Unsub(1, 0)], vec![vec![Send(0), Send(0)], vec![Unsub(0, 0), Sub(0, 1)], vec![Sub(1, 0)]]);
+        // two receivers subscribe the same, so far unknown, topic at the same time; one of them then publishes
+        add("two_receivers_subscribe_new_topic_then_send", cap, vec![CloneRx(0, 1)], vec![vec![Sub(0, 0), Send(0)], vec![Sub(1, 0)]]);
         // the same receiver subscribed from two threads, one of which then publishes
         add("double_subscribe_then_send", cap, vec![], vec![vec![Sub(0, 0)], vec![Sub(0, 0), Send(0)]]);
         // (a receiver that holds no subscription when the sender goes away never learns of it: that is seqx's
@@ -710,7 +712,14 @@ fn main() {
             install_hooks();
             let sc: Scen = serde_json::from_str(&std::fs::read_to_string(&args[2]).unwrap()).unwrap();
             let quick = args.get(4).map(|s| s == "quick").unwrap_or(true);
-            let bound = if quick { 2 } else { 3 };
+            // three harness threads: one preemption less (the spaces grow by an order of magnitude per thread)
+            let three = sc.threads.len() >= 3;
+            let bound = match (quick, three) {
+                (true, false) => 2,
+                (true, true) => 1,
+                (false, false) => 3,
+                (false, true) => 2,
+            };
             let (s, v) = explore(&sc, bound, if quick { 60_000 } else { 3_000_000 }, Instant::now() + Duration::from_secs(if quick { 150 } else { 1800 }));
             std::fs::write(&args[3], serde_json::to_string(&serde_json::json!({"scenario": s, "violations": v})).unwrap()).unwrap();
             std::process::exit(0);
